@@ -4,14 +4,17 @@
    it, are returned one by one with exactly their types and texts. *)
 From Verif Require Import Common.Base Common.Tactics Common.Lx Gen.Tables
   JsLex.Model JsLex.Lemmas JsLex.Total JsLex.Next JsLex.Canon JsLex.Comment JsLex.Relex JsLex.Proofs
-  JsLex.RelexNext JsLex.Exchange.
+  JsLex.RelexNext JsLex.Exchange JsLex.Exchange2.
 From Coq Require Import ZifyBool.
 
-Inductive tclass := KPunct | KIdent | KWs | KLt.
+Inductive tclass := KPunct | KIdent | KWs | KLt | KString | KComment | KTemplate.
 
 Definition class_of (ty : Z) : option tclass :=
   if ty =? WhitespaceToken then Some KWs
   else if ty =? LineTerminatorToken then Some KLt
+  else if ty =? StringToken then Some KString
+  else if (ty =? CommentToken) || (ty =? CommentLineTerminatorToken) then Some KComment
+  else if ty =? TemplateToken then Some KTemplate
   else if ty =? PrivateIdentifierToken then Some KIdent
   else if 2048 <? ty then Some KIdent
   else if 512 <? ty then Some KPunct
@@ -24,6 +27,14 @@ Definition stop_for (cls : tclass) (c : Z) : Prop :=
   | KIdent => tab_cont c = false /\ c < 192 /\ c <> 92
   | KWs => c <> 32 /\ c <> 9 /\ c <> 11 /\ c <> 12 /\ c < 192
   | KLt => c <> 10 /\ c <> 13 /\ c <> 226
+  | KString | KComment | KTemplate => True      (* closed tokens: any follower *)
+  end.
+
+(* restriction on the text within a class: only multi-line comments among the comment forms *)
+Definition text_ok (cls : tclass) (T : list Z) : Prop :=
+  match cls with
+  | KComment => firstz 2 T = [47; 42]
+  | _ => True
   end.
 
 Lemma emit_at s1 z T R' ty : lx_wf z -> lstart z = lpos z -> suffix z = T ++ R' -> R' <> [] ->
@@ -103,11 +114,11 @@ Proof.
 Qed.
 
 Lemma next_extend s ty T R' cls :
-  relexes id_start id_cont is_zs ty T -> class_of ty = Some cls -> no_trunc T = true ->
+  relexes id_start id_cont is_zs ty T -> class_of ty = Some cls -> text_ok cls T -> no_trunc T = true ->
   seq_inv s -> suffix (jcur s) = T ++ R' -> R' <> [] -> stop_for cls (hd 0 R') ->
   exists s', next id_start id_cont is_zs s = Ok ((ty, Some T), s') /\ seq_inv s' /\ suffix (jcur s') = R'.
 Proof.
-  intros (s2 & Hn & Hp & _) Hcls Hnt (Hw & Hst & Htl & Hpnl) Hsuf HR' Hstop.
+  intros (s2 & Hn & Hp & _) Hcls Htxt Hnt (Hw & Hst & Htl & Hpnl) Hsuf HR' Hstop.
   destruct s as [z e0 plt0 pnl0 lev tl]. unfold js_wf in Hw. cbn [jcur jtl jpnl] in *. subst tl pnl0.
   assert (HT : 0 < len T).
   { destruct T; [|rewrite len_cons; pose proof (len_nonneg T); lia]. exfalso. vm_compute in Hn. discriminate. }
@@ -118,15 +129,56 @@ Proof.
   (apply emit_inv in Hn; destruct Hn as (Hty0 & _ & Hs'); subst s2;
    cbn [jcur set_cur skip mv lpos lx_init] in Hp);
   try (subst ty; discriminate);
-  (* tokens of the classes not covered *)
+  (* numeric literals are not covered *)
   try (match goal with
        | E0 : numeric _ = Ok (_, ?t, _) |- _ => apply numeric_ty in E0
-       | E0 : comment _ = Ok (_, ?t, _, _) |- _ => apply comment_ty in E0
-       | E0 : string_tok _ = Ok (_, ?t, _) |- _ => apply string_tok_ty in E0
        end;
        exfalso; subst ty; unfold class_of, WhitespaceToken, LineTerminatorToken, PrivateIdentifierToken,
-         ErrorToken, CommentToken, CommentLineTerminatorToken, StringToken in *;
-       repeat match type of Hcls with context [if ?b then _ else _] => destruct b eqn:? end; try discriminate; lia).
+         ErrorToken, CommentToken, CommentLineTerminatorToken, StringToken, TemplateToken in *;
+       repeat match type of Hcls with context [if ?b then _ else _] => destruct b eqn:? end; try discriminate; lia);
+  (* HTML-like comments are not covered: the text of a covered comment starts with "/*" *)
+  try (match goal with
+       | E0 : html_comment _ _ = Ok _ , Hty0 : ty = CommentToken |- _ =>
+           exfalso; subst ty; injection Hcls as <-; cbn [text_ok] in Htxt;
+           destruct T as [|t0 T']; [discriminate|]; cbn [app] in E; rewrite pkl_cons_0 in E;
+           assert (t0 = a) by congruence; subst t0;
+           rewrite firstz_cons in Htxt by lia; assert (a = 47) by congruence; lia
+       end);
+  (* multi-line comments *)
+  try (match goal with
+       | E0 : comment (T ++ [0]) = Ok (?n, ?t, ?e, ?sl), Hty0 : ty = ?t |- _ =>
+           assert (n = len T) by lia; subst n ty;
+           pose proof (comment_ty _ _ _ _ _ E0) as Hcty;
+           assert (Hne : t <> ErrorToken) by (intros ->; discriminate);
+           assert (cls = KComment)
+             by (destruct Hcty as [->|[->| ->]]; [congruence|injection Hcls as <-; reflexivity|injection Hcls as <-; reflexivity]);
+           subst cls; cbn [text_ok] in Htxt;
+           pose proof (comment_exchange T [0] R' _ _ _ _ H0R HR' E0 eq_refl Hne Htxt) as E0';
+           open_ext E R' Hsuf; rewrite E0'; cbn [rbind]; use_conds; destruct sl; fin_ext z T R' Hw Hst Hsuf HR'
+       end);
+  (* strings *)
+  try (match goal with
+       | E0 : string_tok (T ++ [0]) = Ok (?n, ?t, ?e) |- _ =>
+           assert (n = len T) by lia; subst n ty;
+           assert (Hq : hd 0 T = 34 \/ hd 0 T = 39)
+             by (destruct T as [|t0 T']; [discriminate|]; cbn [app hd] in *; rewrite pkl_cons_0 in E;
+                 assert (t0 = a) by congruence; lia);
+           assert (Hne : t <> ErrorToken)
+             by (intros ->; discriminate);
+           pose proof (string_tok_exchange T [0] R' _ _ _ H0R HR' E0 eq_refl Hne Hq) as E0';
+           open_ext E R' Hsuf; rewrite E0'; cbn [rbind]; fin_ext z T R' Hw Hst Hsuf HR'
+       end);
+  (* templates without substitution *)
+  try (match goal with
+       | E0 : tpl_loop _ (skipz 1 (T ++ [0])) = Ok (?n, ?o), Hty0 : ty = TemplateToken |- _ =>
+           assert (1 + n = len T) by lia; subst ty;
+           rewrite skipz_app_le in E0 by lia;
+           pose proof (tpl_loop_exchange R' HR' _ _ _ _ _ H0R E0 ltac:(rewrite len_skipz by lia; lia) ltac:(lia)
+                         (length (T ++ R')) ltac:(pose proof (length_skipz_le 1 T); rewrite app_length;
+                                                   pose proof (nonempty_len R' HR'); unfold len in *; lia)) as E0';
+           open_ext E R' Hsuf; unfold template; rewrite Hsuf; xfer2 E R'; rewrite skipz_app_le by lia; rewrite E0';
+           cbn [rbind]; use_conds; cbn [jtl set_tl]; fin_ext z T R' Hw Hst Hsuf HR'
+       end).
   - (* ASCII whitespace *)
     subst ty. injection Hcls as <-. destruct Hstop as (S1 & S2 & S3 & S4 & S5).
     destruct (hd_cons_nonempty R' HR') as (c & R'' & HRc & Hc). rewrite Hc in *.
@@ -156,7 +208,7 @@ Proof.
     assert (z0 = len T) by lia. subst z0 ty.
     destruct (op_ty_range _ _ _ E0) as [->|Hr]; [discriminate|].
     assert (cls = KPunct).
-    { unfold class_of, WhitespaceToken, LineTerminatorToken, PrivateIdentifierToken in Hcls.
+    { unfold class_of, WhitespaceToken, LineTerminatorToken, PrivateIdentifierToken, StringToken, CommentToken, CommentLineTerminatorToken, TemplateToken in Hcls.
       repeat match type of Hcls with context [if ?b then _ else _] => destruct b eqn:? end; try lia; congruence. }
     subst cls. cbn [stop_for] in Hstop.
     destruct (hd_cons_nonempty R' HR') as (c & R'' & HRc & Hc). rewrite Hc in *. subst R'.
@@ -231,7 +283,7 @@ Proof.
     assert (z3 = len T) by lia. subst z3 ty.
     destruct (op_ty_range _ _ _ E1) as [->|Hr]; [discriminate|].
     assert (cls = KPunct).
-    { unfold class_of, WhitespaceToken, LineTerminatorToken, PrivateIdentifierToken in Hcls.
+    { unfold class_of, WhitespaceToken, LineTerminatorToken, PrivateIdentifierToken, StringToken, CommentToken, CommentLineTerminatorToken, TemplateToken in Hcls.
       repeat match type of Hcls with context [if ?b then _ else _] => destruct b eqn:? end; try lia; congruence. }
     subst cls. cbn [stop_for] in Hstop.
     destruct (hd_cons_nonempty R' HR') as (c & R'' & HRc & Hc). rewrite Hc in *. subst R'.
@@ -268,7 +320,7 @@ Proof.
     assert (z0 = len T) by lia. subst z0 ty.
     destruct (op_ty_range _ _ _ E1) as [->|Hr]; [discriminate|].
     assert (cls = KPunct).
-    { unfold class_of, WhitespaceToken, LineTerminatorToken, PrivateIdentifierToken in Hcls.
+    { unfold class_of, WhitespaceToken, LineTerminatorToken, PrivateIdentifierToken, StringToken, CommentToken, CommentLineTerminatorToken, TemplateToken in Hcls.
       repeat match type of Hcls with context [if ?b then _ else _] => destruct b eqn:? end; try lia; congruence. }
     subst cls. cbn [stop_for] in Hstop.
     destruct (hd_cons_nonempty R' HR') as (c & R'' & HRc & Hc). rewrite Hc in *. subst R'.
@@ -294,7 +346,7 @@ Proof.
     assert (cls = KIdent).
     { pose proof (lookup_kw_in _ _ _ Em0) as Hin. pose proof kw_types as K. rewrite forallb_forall in K.
       specialize (K _ Hin). cbn [snd] in K.
-      unfold class_of, WhitespaceToken, LineTerminatorToken, PrivateIdentifierToken in Hcls.
+      unfold class_of, WhitespaceToken, LineTerminatorToken, PrivateIdentifierToken, StringToken, CommentToken, CommentLineTerminatorToken, TemplateToken in Hcls.
       repeat match type of Hcls with context [if ?b then _ else _] => destruct b eqn:? end; try lia; congruence. }
     subst cls. destruct Hstop as (S1 & S2 & S3).
     destruct (hd_cons_nonempty R' HR') as (c & R'' & HRc & Hc). rewrite Hc in *.
@@ -381,20 +433,20 @@ Definition follower (rest : list tokspec) : Z := hd 0 (texts rest ++ [0]).
 Inductive seq_ok : list tokspec -> Prop :=
 | sq_nil : seq_ok []
 | sq_cons ty T rest cls :
-    relexes id_start id_cont is_zs ty T -> class_of ty = Some cls -> no_trunc T = true ->
+    relexes id_start id_cont is_zs ty T -> class_of ty = Some cls -> text_ok cls T -> no_trunc T = true ->
     stop_for cls (follower rest) -> seq_ok rest -> seq_ok ((ty, T) :: rest).
 
 Lemma seq_run ts : seq_ok ts -> forall s, seq_inv s -> suffix (jcur s) = texts ts ++ [0] ->
   exists s', next_n id_start id_cont is_zs (length ts) s = Ok (map (fun t => (fst t, Some (snd t))) ts, s') /\
     seq_inv s' /\ suffix (jcur s') = [0].
 Proof.
-  induction 1 as [|ty T rest cls Hre Hcls Hnt Hstop Hrest IH]; intros s Hinv Hsuf.
+  induction 1 as [|ty T rest cls Hre Hcls Htxt Hnt Hstop Hrest IH]; intros s Hinv Hsuf.
   - exists s. cbn [length next_n map]. auto.
   - cbn [length next_n map fst snd].
     assert (Hsuf' : suffix (jcur s) = T ++ (texts rest ++ [0])).
     { rewrite Hsuf. unfold texts. cbn [map concat snd]. rewrite <- app_assoc. reflexivity. }
     assert (HR' : texts rest ++ [0] <> []) by (destruct (texts rest); discriminate).
-    destruct (next_extend s ty T (texts rest ++ [0]) cls Hre Hcls Hnt Hinv Hsuf' HR' Hstop) as (s1 & Hn & Hinv1 & Hsuf1).
+    destruct (next_extend s ty T (texts rest ++ [0]) cls Hre Hcls Htxt Hnt Hinv Hsuf' HR' Hstop) as (s1 & Hn & Hinv1 & Hsuf1).
     rewrite Hn. cbn [rbind].
     destruct (IH s1 Hinv1 Hsuf1) as (s2 & Hn2 & Hinv2 & Hsuf2). rewrite Hn2. cbn [rbind].
     exists s2. auto.
@@ -416,12 +468,13 @@ Qed.
 
 End SeqNext.
 
-(* non-vacuity: a = ">>>=" LF "if" "(" with no class for non-ASCII runes *)
+(* non-vacuity: a 'x'/*c*/`t`>>>= LF if( with no class for non-ASCII runes *)
 Example ex_seq_ok : seq_ok nocls nocls nocls
-  [(IdentifierToken, [97]); (WhitespaceToken, [32]); (GtGtGtEqToken, [62; 62; 62; 61]);
-   (LineTerminatorToken, [10]); (2068, [105; 102]); (OpenParenToken, [40])].
+  [(IdentifierToken, [97]); (WhitespaceToken, [32]); (StringToken, [39; 120; 39]);
+   (CommentToken, [47; 42; 99; 42; 47]); (TemplateToken, [96; 116; 96]);
+   (GtGtGtEqToken, [62; 62; 62; 61]); (LineTerminatorToken, [10]); (2068, [105; 102]); (OpenParenToken, [40])].
 Proof.
   repeat (eapply sq_cons; [unfold relexes; vm_compute; eexists; split; [reflexivity|split; reflexivity]
-                          | reflexivity | reflexivity | | ]); try apply sq_nil;
-    cbn [stop_for follower texts map concat snd app hd]; unfold op_stop; repeat split; try lia; try reflexivity.
+                          | reflexivity | | reflexivity | | ]); try apply sq_nil;
+    cbn [text_ok stop_for follower texts map concat snd app hd]; unfold op_stop; repeat split; try lia; try reflexivity.
 Qed.
